@@ -113,7 +113,7 @@ Definition pinv (fl : flags) (p : pstate) : bool :=
 
 Definition labels3 : list label :=
   flat_map (fun k => [AInvoke k; ARegister k; ASchedule k; ASend k; AComplete k; AResp k true; AResp k false]) [0; 1; 2]
-  ++ [AConnect true; AConnect false; APush true; APush false; ACloseReq; ACut; AReset; AClean].
+  ++ [AConnect true; AConnect false; APush true; APush false; ACloseReq; ACut; AReset; AClean; AErrDone; ACloseDone].
 
 (* ---- structural equality *)
 Definition exn_code (e : exn) : N :=
@@ -143,7 +143,8 @@ Definition call_eqb (a b : call) : bool :=
   Bool.eqb (c_close a) (c_close b) && pc_eqb (c_pc a) (c_pc b) && fut_eqb (c_fut a) (c_fut b) && Bool.eqb (c_sent a) (c_sent b).
 Definition lstate_eqb (a b : lstate) : bool :=
   match a, b with
-  | LInit, LInit | LRun, LRun | LExit, LExit | LCrash, LCrash => true
+  | LInit, LInit | LRun, LRun | LExit, LExit | LCrash, LCrash | LCloseWait, LCloseWait => true
+  | LErrWait e, LErrWait e' => exn_eqb e e'
   | LClean e i d, LClean e' i' d' => exn_eqb e e' && Nat.eqb i i' && Bool.eqb d d'
   | _, _ => false
   end.
@@ -178,19 +179,20 @@ Definition pc_code (p : pc) : N :=
 Definition call_code (c : call) : N :=
   ((pc_code (c_pc c) * 32 + fut_code (c_fut c)) * 2 + b2n (c_close c)) * 2 + b2n (c_sent c).
 Definition lstate_code (l : lstate) : N :=
-  match l with LRun => 0 | LExit => 1 | LCrash => 2 | LInit => 3 | LClean e i d => 4 + ((exn_code e * 8 + N.of_nat i) * 2 + b2n d) end.
+  match l with LRun => 0 | LExit => 1 | LCrash => 2 | LInit => 3 | LCloseWait => 4 | LErrWait e => 5 + exn_code e
+  | LClean e i d => 12 + ((exn_code e * 8 + N.of_nat i) * 2 + b2n d) end.
 Definition mstat_code (m : mstat) : N :=
   match m with MIdle => 0 | MCalled => 1 | MDone => 2 | MAnswered b => 3 + body_code b end.
 Definition enc_pstate (p : pstate) : positive :=
   let s := fst p in let m := snd p in
   let a := fold_left (fun acc c => acc * 4096 + call_code c)%N (calls s) (N.of_nat (length (calls s))) in
   let a := fold_left (fun acc k => acc * 8 + (1 + N.of_nat k))%N (pending s) (a * 8)%N in
-  let a := (a * 128 + lstate_code (lst s))%N in
+  let a := (a * 256 + lstate_code (lst s))%N in
   let a := (((a * 2 + b2n (writer s)) * 2 + b2n (copen s)) * 2 + b2n (running s))%N in
   let a := fold_left (fun acc x => acc * 16 + mstat_code x)%N (m_st m) a in
   N.succ_pos (((a * 2 + b2n (m_lost m)) * 2 + b2n (m_conn m)) * 2 + b2n (m_bad m)).
 
-Definition fl_fixed : flags := mkFlags true true.
+Definition fl_fixed : flags := mkFlags true true false.
 
 Definition p_init (c0 : bool) (nn nc : nat) : pstate := (init_cfg c0 nn nc, mon_init (nn + nc)).
 
@@ -238,9 +240,10 @@ Proof.
 Qed.
 Lemma lstate_eqb_sound : forall a b, lstate_eqb a b = true -> a = b.
 Proof.
-  intros [| |e i d| |] [| |e' i' d'| |] H; cbn in H; try discriminate; try reflexivity.
-  repeat (apply andb_true_iff in H; destruct H as [H ?]).
-  apply exn_eqb_sound in H. apply Nat.eqb_eq in H1. apply bool_eqb_sound in H0. subst. reflexivity.
+  intros [| |x|e i d| | |] [| |x'|e' i' d'| | |] H; cbn in H; try discriminate; try reflexivity.
+  - apply exn_eqb_sound in H. subst. reflexivity.
+  - repeat (apply andb_true_iff in H; destruct H as [H ?]).
+    apply exn_eqb_sound in H. apply Nat.eqb_eq in H1. apply bool_eqb_sound in H0. subst. reflexivity.
 Qed.
 Lemma nat_eqb_sound : forall a b, Nat.eqb a b = true -> a = b.
 Proof. intros a b H. apply Nat.eqb_eq. exact H. Qed.
@@ -288,7 +291,7 @@ Proof.
   apply Nat.leb_le in Hlen.
   unfold pstep in Hs. cbn [fst snd] in Hs.
   destruct (step fl s l) as [[s' ev]|] eqn:Hst; [|discriminate]. clear Hs.
-  destruct l as [k|k|k|k|k|ok|k ok|ok| | | |]; cbn [step] in Hst;
+  destruct l as [k|k|k|k|k|ok|k ok|ok| | | | | |]; cbn [step] in Hst;
     try (destruct (nth_error (calls s) k) as [c|] eqn:Hn; [|discriminate];
          destruct (nth_error_lt3 s k c Hlen Hn) as [->|[->| ->]]);
     try (destruct ok); cbn; tauto.
@@ -361,11 +364,11 @@ Qed.
 
 (* the same for any flag record that says what fl_fixed says (the form used by Properties.v with the generated flags) *)
 Lemma all_runs_pass_flags : forall fl (cleans : bool),
-  f_snapshot fl = true -> f_clear_writer fl = true -> cleans = true ->
+  f_snapshot fl = true -> f_clear_writer fl = true -> f_clear_writer_late fl = false -> cleans = true ->
   forall c0 nn nc, nn + nc <= 3 ->
   forall tr s h, exec fl (init_cfg c0 nn nc) tr = Some (s, h) ->
     check_prefix (nn + nc) h = true /\
     (quiescent fl s = true -> check_history (nn + nc) h = true).
 Proof.
-  intros [a b] cleans Ha Hb _. cbn in Ha, Hb. subst a b. exact all_runs_pass.
+  intros [a b c] cleans Ha Hb Hc _. cbn in Ha, Hb, Hc. subst a b c. exact all_runs_pass.
 Qed.
